@@ -15,7 +15,7 @@ CONSTANTS
   AdvArgs <- AdvOne
   SetArgs <- SetNone
   Msgs <- NoMsgs
-  Depth = 8
+  Depth = 9
 VIEW HView
 PROPERTY PFrameShape
 PROPERTY PBarWidth
